@@ -70,7 +70,7 @@ func RunCachedProducer(c *sim.Ctx) {
 	dropOpen := knobInt(c, "drop_while_open", 0, 1) == 1 // Drop may also be called while opens are outstanding
 	names := []string{"a", "b", "c"}
 	c.ProbeDecl("over_close_reported", "reopen_after_last_close", "second_drop_suppressed", "last_close_failed_by_injection",
-		"drop_with_opens_outstanding", "last_close_after_drop", "open_failed_by_injection", "open_after_failed_open")
+		"drop_with_opens_outstanding", "last_close_after_drop", "open_failed_by_injection", "open_after_failed_open", "second_producer_alive")
 
 	under := &fullProducer{d: NewDisk(), failOpen: map[string]bool{}}
 	failedOpen := map[string]bool{}
@@ -79,6 +79,30 @@ func RunCachedProducer(c *sim.Ctx) {
 		prod = cachedproducer.WrapAll(under)
 	} else {
 		prod = cachedproducer.Wrap(under)
+	}
+	// a second caching producer of the same process, over its own underlying producer, holds the same names
+	// open for the whole run: caching producers are independent of one another
+	var by kvdb.DBProducer
+	var byUnder *fullProducer
+	byHandles := map[string]kvdb.Store{}
+	{ // in every run: a failure must not depend on what an earlier run of the same process left behind
+		byUnder = &fullProducer{d: NewDisk(), failOpen: map[string]bool{}}
+		if variant == 0 {
+			by = cachedproducer.Wrap(byUnder)
+		} else {
+			by = cachedproducer.WrapAll(byUnder)
+		}
+		for _, n := range names {
+			h, err := by.OpenDB(n)
+			if err != nil {
+				c.Violation("cached-open", "cached-open/error", "second producer: OpenDB(%s): %v", n, err)
+			}
+			byHandles[n] = h
+		}
+		if len(byUnder.stores) != len(names) {
+			c.Violation("cached-open", "cached-open/underlying-open-count", "second producer: %d names opened, its underlying producer was asked %d times", len(names), len(byUnder.stores))
+		}
+		c.Probe("second_producer_alive")
 	}
 	type cyc struct {
 		handle      kvdb.Store
@@ -226,6 +250,33 @@ func RunCachedProducer(c *sim.Ctx) {
 				c.Probe("second_drop_suppressed")
 			}
 			cy.drops -= got
+		}
+	}
+	if by != nil {
+		// the first producer's history did not touch the second one's databases, and its closes still work
+		for _, s := range byUnder.stores {
+			if s.closes != 0 || s.drops != 0 {
+				c.Violation("cached-close", "cached-close/other-producer", "operations on one caching producer closed (%d) or dropped (%d) database %s of another caching producer", s.closes, s.drops, s.name)
+			}
+		}
+		for _, n := range names {
+			if h, ok := st[n]; ok && h.handle == byHandles[n] {
+				c.Violation("cached-open", "cached-open/shared-between-producers", "two caching producers returned the same store for %s", n)
+			}
+			if err := byHandles[n].Close(); err != nil {
+				c.Violation("cached-close", "cached-close/other-producer", "second producer: Close(%s) matching its only open returned %v", n, err)
+			}
+		}
+		for _, s := range byUnder.stores {
+			if s.closes != 1 {
+				c.Violation("cached-close", "cached-close/underlying-close-count", "second producer: database %s closed %d times after its only open was closed", s.name, s.closes)
+			}
+		}
+	}
+	// leave nothing open (a run must not depend on an earlier run of the same process)
+	for _, cy := range st {
+		for i := 0; i < cy.refs; i++ {
+			_ = cy.handle.Close()
 		}
 	}
 	// every underlying instance: closed at most once
